@@ -230,7 +230,7 @@ func ruleC17(c *Ctx) {
 				name := st.Underlying().(*types.Struct).Field(fa.Field).Name()
 				if name == "signingContext" || name == "signingContextMu" {
 					nAcc++
-					c.check(shortFn(fn) == "(*SAMLServiceProvider).SigningContext", "C17-R2/who-may-access", shortFn(fn), "access to sp."+name, c.P.InstrPos(fa), "inside SigningContext", "sp."+name+" is accessed outside SigningContext, bypassing its lock discipline")
+					c.check(c.P.withinOnly(fn, allowNames("(*SAMLServiceProvider).SigningContext")), "C17-R2/who-may-access", shortFn(fn), "access to sp."+name, c.P.InstrPos(fa), "inside SigningContext", "sp."+name+" is accessed outside SigningContext, bypassing its lock discipline")
 				}
 			}
 		}
